@@ -513,7 +513,13 @@ def unroll_literal_loops(tree: ast.Module) -> int:
                     for x in names:
                         inside = sum(1 for b in st.body for n in ast.walk(b) if isinstance(n, ast.Name) and n.id == x)
                         rebinds = any(isinstance(n, ast.Name) and n.id == x and isinstance(n.ctx, (ast.Store, ast.Del)) for b in st.body for n in ast.walk(b))
-                        ok_u = ok_u and not rebinds and reads_total(x) == inside + 1
+                        # every other occurrence of the name belongs to another loop that binds it afresh (`for t in (A, B): ...`
+                        # twice with the same variable)
+                        owned = 0
+                        for other in ast.walk(fn):
+                            if isinstance(other, ast.For) and other is not st and any(isinstance(t_, ast.Name) and t_.id == x for t_ in ast.walk(other.target)) and not any(o2 is st for o2 in ast.walk(other)) and not any(o2 is other for o2 in ast.walk(st)):
+                                owned += sum(1 for n in ast.walk(other) if isinstance(n, ast.Name) and n.id == x)
+                        ok_u = ok_u and not rebinds and reads_total(x) == inside + len([1 for t_ in ast.walk(st.target) if isinstance(t_, ast.Name) and t_.id == x]) + owned
                     if ok_u and not nested_fn:
                         for row in rows:
                             bodies = [copy.deepcopy(b) for b in st.body]
